@@ -109,6 +109,23 @@ theorem c14_limiter_config :
     refine ⟨if rate < 1000 then 1000 else rate, rfl, ?_, ?_⟩ <;> split <;> omega
 
 open KM.Gen.C14 in
+/-- **The configured limits are the enforced ones** (regenerated table + the statement's own floor):
+for every burst and rate an operator writes into the config file, the limiter `loadVerifyConfigFile`
+builds has exactly that burst and rate, raised to the floor (10, 1/s) only when they are below it —
+in particular a configured burst of 10…99 is *not* replaced by the default. The `judge` bounds bursts
+through a loader-built state with these `Spec.enforced…` values. -/
+theorem c14_configured_enforced (burst rate : Nat) :
+    effective limiterConfig.defaultBurst limiterConfig.clampBurst (some burst)
+      = some (Spec.enforcedBurst burst) ∧
+    effective limiterConfig.defaultRateMilli limiterConfig.clampRateMilli (some rate)
+      = some (Spec.enforcedRateMilli rate) := by
+  constructor
+  · show some (if burst < 10 then 10 else burst) = some (max burst 10)
+    congr 1; split <;> omega
+  · show some (if rate < 1000 then 1000 else rate) = some (max rate 1000)
+    congr 1; split <;> omega
+
+open KM.Gen.C14 in
 /-- **validateUserTOTP as read** (regenerated table): the statement order the model follows —
 spacing test and `lastCheckTime` update under the mutex, then lock-out test, 24 h reset, replay
 guard, the device loop (per enabled device `totpMatchedCounter`; a miss or a step not later than the
